@@ -235,12 +235,12 @@ pub(crate) fn unit(
                         ));
                     }
 
-                    last = Some(name);
+                    last = Some((prefix, name));
                 }
             }
             OP_POWER => {
                 let (kind, span) = match (last.take(), nodes.next_node()) {
-                    (Some(last), Some(node)) if *node.value() == NUMBER => {
+                    (Some((prefix, last)), Some(node)) if *node.value() == NUMBER => {
                         let span = node.span();
 
                         let power = match str::parse::<i32>(&source[span.range()]) {
@@ -248,7 +248,14 @@ pub(crate) fn unit(
                             Err(error) => return Err(Error::new(*span, BadNumber { error })),
                         };
 
-                        compound.update_power(last, power * current);
+                        // The unit was just counted once with the current
+                        // sign, so only the remainder of its power is added.
+                        let rest = power * current - current;
+
+                        if rest != 0 {
+                            let _ = compound.update(last, rest, prefix);
+                        }
+
                         continue;
                     }
                     (_, Some(node)) => (*node.value(), *node.span()),
